@@ -33,7 +33,7 @@ _T = {
     "C11": ("chained self-delimiting packets decode as one-per-call, same final caches, for every partition into calls", "outcome, packets, caches"),
     "C12": ("allowed_versions acts as a prefix filter on the every-version-allowed result and caches; allowed unknown versions give UnknownVersion", "outcome, packets, caches"),
     "C13": ("common-flow view is the projection of the decoded records (spec projection Preds.specCommon); flat helper = concatenation", "outcome, packets, common"),
-    "C15": ("parsing cost (theorems: result size linear without zero-length fields and bounded by records x fields in general, the per-packet tail copy is exactly quadratic on packed buffers — Props/C15b.lean; the decode work of the V9 record loop is paid by the records it returns plus one template's worth, the repaired loop returns what the retrying fold returned, the fold had no linear bound — Props/C15c.lean over the work model CostWork.lean; lifted to whole reported V9 packets and IPFIX messages (work ≤ share of the result + M per set, + the product term for the one IPFIX set a message stops on) — Props/C15d.lean; measured:) heap bytes requested AND peak live heap during parse_bytes (counting allocator in the harness) bounded by A*|buf| + B*size(result) + C, and size(result) bounded by D*(|buf| + wire size of cached templates) + E, with the size measures defined in Lean (Cost.lean) and the constants fixed in the driver; super-linear families are recorded known findings", "outcome, packets"),
+    "C15": ("parsing cost (theorems: result size linear without zero-length fields and bounded by records x fields in general, the per-packet tail copy is exactly quadratic on packed buffers — Props/C15b.lean; the decode work of the V9 record loop is paid by the records it returns plus one template's worth, the repaired loop returns what the retrying fold returned, the fold had no linear bound — Props/C15c.lean over the work model CostWork.lean; lifted to whole reported V9 packets and IPFIX messages (work ≤ share of the result + M per set, + the product term for the one IPFIX set a message stops on) — Props/C15d.lean; measured:) heap bytes requested AND peak live heap during parse_bytes (counting allocator in the harness) bounded by A*|buf| + B*size(result) + C + W*(modelled data-path work of the call, Cost.workOf: work a late failure discards is paid by no byte of the result), and size(result) bounded by D*(|buf| + wire size of cached templates) + E, with the size measures defined in Lean (Cost.lean) and the constants fixed in the driver; super-linear families are recorded known findings", "outcome, packets"),
     "C16": ("JSON (theorems: text round trip of the printed tree, ordered match, name-keyed read-back readJ (toJ p) = normal form of p for every parse result, member schema regenerated from the derive(Serialize) declarations): serde_json succeeds, the text is identical when produced twice and by a twin parser fed the same history, and read back it equals the model's serialisation tree toJ (Json.lean) of the decoded value (numbers exact incl. 128-bit, NaN/inf as null, lossy strings, error elements)", "outcome, packets"),
     "C17": ("feature parse_unknown_fields off: the crate must build (a failing build is the violation, replay = compiler output); a second harness is linked against that build; with only known field types both builds give identical packets/exports/common view/caches, and no decoded record carries a field of unknown type", "outcome, packets, caches, exports, common"),
     "C14": ("a buffer shorter than its own header announces (V5/V7 count, IPFIX length, V9 flowset length: decidable predicate on the raw bytes, Props/C14b.lean) and a packet cut strictly inside both yield an error carrying exactly those bytes, earlier packets unchanged, caches unchanged for V5/V7/IPFIX", "outcome, packets, caches"),
